@@ -5,7 +5,9 @@
 //	rhh    every Put/PutQuiet/Reset/Grow sequence up to depth d over 6 keys whose home slots collide
 //	radix  every Insert/DeletePrefix sequence up to depth d over the brief's key universe
 //	bloom  every pair (A,B) of subsets of 8 keys for each (m,k)
-//	sids   every pair (thorough: also triple) of subsets of 6 series ids
+//	sids   every pair of subsets of 6 series ids (triples: subsets of 4 ids, thorough 6 ids); after every binary /
+//	       variadic operation each participating set is mutated in turn and all of them are compared with their
+//	       models again (results, receivers and operands must not share storage)
 package c36
 
 import (
@@ -396,6 +398,17 @@ func execBloom(cs *Case) (*V, string) {
 var sidsIDs = []uint64{1, 2, 3, 1 << 16, 1<<32 - 1, 1<<32 + 1}
 var sidsProbe = []uint64{0, 1, 2, 3, 4, 1 << 16, 1<<16 + 1, 1<<32 - 1, 1 << 32, 1<<32 + 1}
 
+// sidsFresh are ids outside sidsIDs (all < 2^32, in the roaring containers of 1..3 and of 2^16), one per part
+// of an independence check.
+var sidsFresh = []uint64{4, 1<<16 + 1, 5, 6}
+
+// part is one set taking part in an operation, with its model.
+type part struct {
+	name string
+	s    *tsdb.SeriesIDSet
+	m    uset
+}
+
 type uset map[uint64]bool
 
 func mkset(ids []uint64, mask int) uset {
@@ -534,6 +547,38 @@ func execSids(cs *Case) (*V, string) {
 		}
 		return nil, "", false
 	}
+	// indep: the sets taking part in an operation (its result, its receiver, its operands) are independent values
+	// afterwards. Each part in turn is mutated (Add of an id no set holds, Remove of its smallest member); after
+	// every mutation every part must equal its own model, i.e. nothing shows through in another set.
+	indep := func(op string, parts ...*part) (*V, string, bool) {
+		for i, pi := range parts {
+			m := uset{}
+			for id := range pi.m {
+				m[id] = true
+			}
+			f := sidsFresh[i]
+			what := fmt.Sprintf("Add(%d)", f)
+			pi.s.Add(f)
+			m[f] = true
+			if old := pi.m.sorted(); len(old) > 0 {
+				what += fmt.Sprintf(",Remove(%d)", old[0])
+				pi.s.Remove(old[0])
+				delete(m, old[0])
+			}
+			pi.m = m
+			for j, pj := range parts {
+				if msg := verifySids(pj.s, pj.m, wide); msg != "" {
+					which := "mutate-" + pi.name + "-changes-" + pj.name
+					if i == j {
+						which = "mutate-" + pi.name + "-wrong"
+					}
+					v, o := fail(op, "aliasing/"+which, fmt.Sprintf("after %s on part %d (%s): part %d (%s): %s", what, i, pi.name, j, pj.name, msg))
+					return v, o, true
+				}
+			}
+		}
+		return nil, "", false
+	}
 	a := func() *tsdb.SeriesIDSet { return buildSids(A, 0) }
 	b := func() *tsdb.SeriesIDSet { return buildSids(B, 0) }
 
@@ -547,6 +592,9 @@ func execSids(cs *Case) (*V, string) {
 			return v, o
 		}
 		if v, o, bad := chk("Merge(b,c)", "operand-c", z, C); bad {
+			return v, o
+		}
+		if v, o, bad := indep("Merge(b,c)", &part{"receiver", x, A.or(B).or(C)}, &part{"operand", y, B}, &part{"operand", z, C}); bad {
 			return v, o
 		}
 		return nil, fmt.Sprintf("sids3:union=%d", len(A.or(B).or(C)))
@@ -579,6 +627,64 @@ func execSids(cs *Case) (*V, string) {
 			return v, o
 		}
 		if v, o, bad := chk(op.name, "operand", y, B); bad {
+			return v, o
+		}
+		parts := []*part{{"receiver", x, op.recv}, {"operand", y, B}}
+		if r != x { // And, AndNot return a new set
+			parts = append([]*part{{"result", r, op.m}}, parts...)
+		}
+		if v, o, bad := indep(op.name, parts...); bad {
+			return v, o
+		}
+	}
+	// variadic Merge with empty sets among the receiver / the operands, and And/AndNot of a set with itself
+	{
+		x, y, e := a(), b(), tsdb.NewSeriesIDSet()
+		x.Merge(y, e)
+		if v, o, bad := indep("Merge(b,empty)", &part{"receiver", x, A.or(B)}, &part{"operand", y, B}, &part{"operand", e, uset{}}); bad {
+			return v, o
+		}
+		x, y, e = a(), b(), tsdb.NewSeriesIDSet()
+		x.Merge(e, y)
+		if v, o, bad := indep("Merge(empty,b)", &part{"receiver", x, A.or(B)}, &part{"operand", e, uset{}}, &part{"operand", y, B}); bad {
+			return v, o
+		}
+		x, y, y2 := a(), b(), buildSids(B, 1)
+		x.Merge(y, y2)
+		if v, o, bad := indep("Merge(b,b')", &part{"receiver", x, A.or(B)}, &part{"operand", y, B}, &part{"operand", y2, B}); bad {
+			return v, o
+		}
+		x, y, e = a(), b(), tsdb.NewSeriesIDSet()
+		e.Merge(x, y)
+		if v, o, bad := indep("empty.Merge(a,b)", &part{"receiver", e, A.or(B)}, &part{"operand", x, A}, &part{"operand", y, B}); bad {
+			return v, o
+		}
+		x, y = a(), b()
+		x.Clear()
+		x.Merge(y)
+		if v, o, bad := indep("Clear-Merge", &part{"receiver", x, B}, &part{"operand", y, B}); bad {
+			return v, o
+		}
+		x, y = a(), b()
+		x.Clear()
+		x.MergeInPlace(y)
+		if v, o, bad := indep("Clear-MergeInPlace", &part{"receiver", x, B}, &part{"operand", y, B}); bad {
+			return v, o
+		}
+		x = a()
+		r := x.And(x)
+		if v, o, bad := chk("And-self", "result", r, A); bad {
+			return v, o
+		}
+		if v, o, bad := indep("And-self", &part{"result", r, A}, &part{"receiver", x, A}); bad {
+			return v, o
+		}
+		x = a()
+		r = x.AndNot(x)
+		if v, o, bad := chk("AndNot-self", "result", r, uset{}); bad {
+			return v, o
+		}
+		if v, o, bad := indep("AndNot-self", &part{"result", r, uset{}}, &part{"receiver", x, A}); bad {
 			return v, o
 		}
 	}
@@ -630,6 +736,14 @@ func execSids(cs *Case) (*V, string) {
 		return v, o
 	}
 	if v, o, bad := chk("CloneNoLock-mutate-original", "original", x, A.minus(B).or(B.minus(A))); bad {
+		return v, o
+	}
+	x = a()
+	if v, o, bad := indep("Clone", &part{"result", x.Clone(), A}, &part{"receiver", x, A}); bad {
+		return v, o
+	}
+	x = a()
+	if v, o, bad := indep("CloneNoLock", &part{"result", x.CloneNoLock(), A}, &part{"receiver", x, A}); bad {
 		return v, o
 	}
 	// serialisation
@@ -815,6 +929,18 @@ func (e *explorer) explore() {
 			e.one(Case{Fam: "sids", IDs: sidsIDs, A: a, B: b}, func(string) bool { return a != 0 || b != 0 })
 		}
 	}
+	// quick: every triple of subsets of the first 4 ids through variadic Merge (thorough runs every triple over all
+	// 6 ids at the end, which contains these)
+	if !c.Thorough() {
+		n4 := 1 << 4
+		for a := 0; a < n4; a++ {
+			for b := 0; b < n4; b++ {
+				for cc := 0; cc < n4; cc++ {
+					e.one(Case{Fam: "sids", IDs: sidsIDs[:4], A: a, B: b, C: cc, Tri: true}, always)
+				}
+			}
+		}
+	}
 	t0 := time.Now()
 	lap := func(what string) { c.Logf("shard %d: %s done at %.1fs", c.Shard, what, time.Since(t0).Seconds()) }
 	lap("sids pairs")
@@ -915,7 +1041,7 @@ func TestCheck(t *testing.T) {
 	vlib.Main(t, &vlib.Check{
 		ID: "C36", Level: "exploration",
 		Rule: "four families, each complete within its bounds, against Go map/set models. " +
-			"sids: every ordered pair (A,B) of subsets of ids {1,2,3,2^16,2^32-1,2^32+1} through NewSeriesIDSet/Add/AddMany/AddNoLock, And, AndNot, Merge, MergeInPlace, Diff, Intersects, Equals, Clone(+mutate clone/original), Remove, Clear, WriteTo->UnmarshalBinary(+Unsafe), each observed by Cardinality/Contains/Slice/ForEach (thorough: also every triple through variadic Merge). " +
+			"sids: every ordered pair (A,B) of subsets of ids {1,2,3,2^16,2^32-1,2^32+1} through NewSeriesIDSet/Add/AddMany/AddNoLock, And, AndNot, Merge, MergeInPlace, Diff, Intersects, Equals, Clone(+mutate clone/original), Remove, Clear, WriteTo->UnmarshalBinary(+Unsafe), each observed by Cardinality/Contains/Slice/ForEach; after every And, AndNot, Merge, MergeInPlace, Diff, Clone, CloneNoLock, And/AndNot of a set with itself, and the variadic forms x.Merge(b,empty), x.Merge(empty,b), x.Merge(b,b'), empty.Merge(a,b), Clear+Merge(b), Clear+MergeInPlace(b) an independence check: each participating set in turn (result, receiver, every operand) gets Add(id no set holds) and Remove(its smallest member), and after each mutation every participating set must equal its own model (no shared storage between result/receiver and operands); every triple of subsets of the first 4 ids through variadic Merge(b,c) with the same independence check (thorough: every triple over all 6 ids). " +
 			"radix: every sequence of length 1..5 (thorough 1..6) over Insert(6 keys {\"\",a,ab,abc,b,ab\\x00}) and DeletePrefix(8 prefixes), observed by Len after every op and by Get(10 probes)/Minimum/Maximum at the end. " +
 			"rhh: every sequence of length 1..5 (thorough 1..6) over Put/PutQuiet(6 keys with colliding home slots)/Reset/Grow from capacity 2, load factor 90 (thorough: also capacity 4, 8, load factor 50, 100 to depth 5), observed by Len after every op and Get/Keys/Elem scan at the end; separate family with the empty key to depth 4. " +
 			"bloom: every pair (A,B) of subsets of 8 keys (quick: B over 6 keys) for m in {8,64} x k in {1,2,3} (thorough m in {8,9,64,512}, k in 1..4): no false negative after Insert, Bytes->NewFilterBuffer, Clone(+Insert), Merge. " +
